@@ -377,6 +377,9 @@ SNIPS = [
     "{% do f() %}{% do o.m(1) %}", "{% for x in xs %}{% if loop.index == 2 %}{% break %}{% endif %}{{ x.a }}{% endfor %}",
     "{% for x in it if x %}{% if x == 1 %}{% continue %}{% endif %}{{ x }}{{ f() }}{% endfor %}",
     "{% trans v=s %}v={{ v }}{% endtrans %}{% trans n=o.n %}{{ n }} one{% pluralize %}{{ n }} many{% endtrans %}", "{{ _(s|string) }}{{ gettext('x') ~ s }}",
+    # the loop object printed / measured while the iterable has no len(): the rest is consumed inside __repr__ / __len__
+    "{% for x in it %}{{ loop }}{{ x }}{% endfor %}", "{% for x in it if x %}{{ loop|length }}{{ loop }}{% endfor %}",
+    "{% for x in xs %}{{ loop }}{{ loop.length }}{% endfor %}", "{% for x in o %}{{ loop|string|length }}{% endfor %}",
     # loops whose iterable expression is itself a data event (attribute / item / call), with and without a loop filter,
     # extended and recursive
     "{% for x in o.b.c if x %}{{ x }}{% endfor %}", "{% for x in f() if x != 'z' %}{{ x }}{{ loop.index }}{% endfor %}",
@@ -420,6 +423,8 @@ WRAPS = [
 FIXED = [
     "{{ r[k] }}|{{ o[k] is undefined }}|{{ o is sequence }}",
     "{% import 'lib.html' as L %}{{ L.lm(r) }}{{ L.v }}|{{ f() }}|{% for x in xs if x.a %}[{{ x.n }}]{% endfor %}",
+    # every kind of call on data objects that also answer attribute lookups (the sandbox probes them before calling)
+    "{{ o(1) }}|{{ o.m(2) }}|{{ f() }}|{% for x in o.b.c if x %}{{ x }}{% endfor %}|{% for x in it %}{{ loop }}{% endfor %}",
 ]
 
 CONFIGS = [
@@ -661,7 +666,9 @@ def run(ctx):
             templates = dict(AUX)
             templates["main.html"] = src
             cfgs = ctx.rng.sample(CONFIGS, 2)
-            if ti < len(CONFIGS):
+            if ti < len(FIXED):
+                cfgs = list(CONFIGS)            # the regression inputs run in every configuration
+            elif ti < len(CONFIGS):
                 cfgs = [CONFIGS[ti], CONFIGS[(ti + 9) % len(CONFIGS)]]
             for cfg in cfgs:
                 inject_all(ctx, jinja2, reader, loop, templates, cfg, pending, table_broken)
@@ -688,6 +695,11 @@ def run(ctx):
             ctx.reject(dict(case, real=real, model=p), "a foreign exception raised by data did not come out of the render "
                        f"as the same object ({real}); decided at {where}", sig)
             continue
+        if exc_cls is PStop and kind not in ("call", "acall", "next", "anext") and not real_same and real.startswith("other:RuntimeError"):
+            # the property lists StopIteration as a signal only "from a callable"; from an attribute / item / str event it
+            # should come out unchanged, but it cannot leave the generator the template is compiled to (PEP 479)
+            ctx.reject(dict(case, real=real, model=p), "StopIteration raised by a data " + kind + " event surfaces as RuntimeError "
+                       "('generator raised StopIteration'), not as the raised object", "StopIteration from a non-call data event (PEP 479)")
         if (kind, exc_cls) in PROTOCOL and model_same and not real_same:
             # the class is the CPython protocol's own signal for this kind of event (StopIteration ends an iteration,
             # IndexError ends the old sequence-iteration protocol used by reversed() / iter(), TypeError from __len__
